@@ -60,6 +60,12 @@ CLAIMED["C18"] = ("4/C18", "Real DateInterval over real LocalDate on the DayCale
                   "operations raise, iteration of short intervals; Interval over all instants incl. both unbounded ends (membership, has_start/"
                   "has_end, start/end/duration raising); YearMonth.to_date_interval on real ISO/Julian/Coptic.",
                   "day-number order = calendar order is C01.order; plus_days by contract C09")
+CLAIMED["C05"] = ("4/C05", "Real DateTimeZone.map_local over a symbolic zone (2 and 3 real ZoneIntervals with arbitrary transition instants >= 3 "
+                  "days apart and arbitrary wall offsets in +-18h) for every local instant: count, early/late intervals, the pair around a gap; "
+                  "instant -> local -> map_local recovers the interval; the stock resolvers (strict, lenient, first, last) over every consistent "
+                  "mapping; ZonedDateTime + Duration re-derives the offset; at_start_of_day (thorough). Local date-times are real LocalDateTime "
+                  "values over DayCalendar.",
+                  "the >= 3-day interval assumption is re-measured from the bundled tz database on every run (labelled premise); zones violating it are outside the claim")
 NOT_BUILT = {}
 
 NA_REASON = "check not built yet in this round (design in DESIGN.md section 4); no claim is made"
